@@ -4,6 +4,7 @@ import (
 	"fmt"
 	"os"
 	"regexp"
+	"runtime"
 	"sort"
 	"strconv"
 	"strings"
@@ -120,12 +121,16 @@ type Config struct {
 	MaxDisturb   int
 	Disturbances []string // "crash", "midcrash", "error", "conflict"
 	StateCap     int
+	MemLimitMB   int // stop (exhaustive:false) when the heap exceeds this many MB; 0 = no limit
 	Monitors     []Monitor
 	Deadline     time.Time
 	// InjectOncePerControlState bounds WHERE user deviations are injected (see expand()).
 	InjectOncePerControlState bool
-	EarlyTicks                bool // thorough: ticks also while work is pending (counted as disturbance)
-	Verbose                   bool
+	// DisturbOncePerControlState applies the same bound to fault points (crash after write i, error / conflict at
+	// call j of a reconcile): one representative state per abstract control state
+	DisturbOncePerControlState bool
+	EarlyTicks                 bool // thorough: ticks also while work is pending (counted as disturbance)
+	Verbose                    bool
 }
 
 type Explorer struct {
@@ -504,6 +509,15 @@ func (ex *Explorer) Run(initBudget Budget) {
 			ex.R.NotExhaustive(fmt.Sprintf("scenario %s: internal deadline reached at %d states (frontier %d)", ex.Cfg.Sc.ID, len(ex.nodes), len(ex.frontier)+len(ex.frontier2)))
 			break
 		}
+		if ex.Cfg.MemLimitMB > 0 && len(ex.nodes)%2000 == 0 {
+			var ms runtime.MemStats
+			runtime.ReadMemStats(&ms)
+			if ms.HeapAlloc>>20 > uint64(ex.Cfg.MemLimitMB) {
+				ex.Capped = true
+				ex.R.NotExhaustive(fmt.Sprintf("scenario %s: memory budget %d MB reached at %d states (frontier %d)", ex.Cfg.Sc.ID, ex.Cfg.MemLimitMB, len(ex.nodes), len(ex.frontier)+len(ex.frontier2)))
+				break
+			}
+		}
 		id := ex.frontier[0]
 		ex.frontier = ex.frontier[1:]
 		ex.expand(ex.nodes[id])
@@ -551,20 +565,39 @@ func (ex *Explorer) expand(n *node) {
 		if n.budget.Disturb > 0 && t.Result != nil {
 			nb := n.budget
 			nb.Disturb--
+			cs := ""
+			if ex.Cfg.DisturbOncePerControlState {
+				w.Restore(n.snap)
+				cs = n.budget.String() + "|" + ControlState(w, ex.Cfg.Sc)
+			}
+			// fault points: with DisturbOncePerControlState one representative (the BFS-first state) per abstract
+			// control state, transition, fault kind and call / write index, like user deviations
+			fault := func(f Fault) {
+				if ex.Cfg.DisturbOncePerControlState {
+					ck := label + faultSuffix(f) + "|" + cs
+					if ex.injected[ck] {
+						ex.Counters["fault points skipped (control state already used)"]++
+						return
+					}
+					ex.injected[ck] = true
+					ex.Counters["fault points used"]++
+				}
+				try(label, f, nb, false)
+			}
 			for _, d := range ex.Cfg.Disturbances {
 				switch d {
 				case "midcrash":
 					for i := 1; i <= t.Result.Writes; i++ {
-						try(label, Fault{Kind: "crash", Index: i}, nb, false)
+						fault(Fault{Kind: "crash", Index: i})
 					}
 				case "error":
 					for j := 1; j <= t.Result.Calls; j++ {
-						try(label, Fault{Kind: "error", Index: j}, nb, false)
+						fault(Fault{Kind: "error", Index: j})
 					}
 				case "conflict":
 					for j := 1; j <= t.Result.Calls && j <= len(t.Result.Kinds); j++ {
 						if t.Result.Kinds[j-1] {
-							try(label, Fault{Kind: "conflict", Index: j}, nb, false)
+							fault(Fault{Kind: "conflict", Index: j})
 						}
 					}
 				}
